@@ -53,6 +53,7 @@ func (a *AuthReq) GetUserID() string                   { return a.UserID }
 func (a *AuthReq) Done() bool                          { return a.IsDone }
 
 type Storage struct {
+	ErrEcho  bool // error texts repeat the key that was asked for (applications do that; the IdP echoes error texts in status messages)
 	mu       sync.Mutex
 	SPs      map[string]*serviceprovider.ServiceProvider
 	Requests map[string]*AuthReq
@@ -138,6 +139,9 @@ func (s *Storage) GetEntityByID(ctx context.Context, entityID string) (*servicep
 	}
 	sp, ok := s.SPs[entityID]
 	if !ok {
+		if s.ErrEcho {
+			return nil, fmt.Errorf("unknown service provider: %s", entityID)
+		}
 		return nil, fmt.Errorf("unknown service provider")
 	}
 	return sp, nil
